@@ -77,6 +77,10 @@ def observe(R, prog, text, sites):
 
 
 def worker(ctx, job):
+    import random as _random
+    from vf.flo import relrefs as _R
+    for seed in job.get("reared", []):
+        reared_check(ctx, _R, _random.Random(seed))
     from vf.flo import relrefs as R
     for seed in job["seeds"]:
         rng = random.Random(seed)
@@ -307,11 +311,109 @@ MEASURED48 = {
 }
 
 
+# --------------------------------------------------------------------------- clones reared at run time
+REAR_POOL = ["fa", "fb", "ga", "top", "xa", "xb", "xc", "foo", "ma", "mb", "hold", "setup"]
+
+
+def reared_case(rng):
+    """A framer T whose frame S rears, at run time, a clone of the moot framer M into another frame X of T; M's actions
+    write through main-relative and own-relative references.  The clone's main frame is X -- the frame it was reared
+    into -- whichever frame issued the rear."""
+    names = rng.sample(REAR_POOL, 5)
+    naming = dict(zip(["T", "S", "X", "M", "MF"], names))
+    form = rng.choice(["full", "full", "noas", "nobe"])
+    refs = rng.sample(["frame main", "framer main", "frame me", "framer me", "frame main", "framer"], rng.randint(3, 5))
+    ctxs = [rng.choice(["enter", "recur", "exit"]) for _ in refs]
+    return {"naming": naming, "form": form, "refs": list(zip(refs, ctxs)), "sfirst": rng.random() < 0.7,
+            "via": rng.choice([None, None, "boo", "framer.me.bin"])}
+
+
+def reared_text(case, naming):
+    T, S, X, M, MF = (naming[k] for k in ("T", "S", "X", "M", "MF"))
+    rear = "rear %s" % M + (" as mine" if case["form"] in ("full", "nobe") else "") + (" be aux" if case["form"] in ("full", "noas") else "")
+    L = ["house h", "", "  framer %s be active first %s" % (T, S)]
+    fS = ["    frame %s" % S, "      %s in frame %s" % (rear, X), "      go %s" % X]
+    fX = ["    frame %s" % X, "      go %s if recurred >= 2" % "vfend", ]
+    L += (fS + fX) if case["sfirst"] else (fX + fS)
+    L += ["    frame vfend", "      bid stop all", ""]
+    L += ["  framer %s be moot" % M + (" via %s" % case["via"] if case["via"] else ""), "    frame %s" % MF]
+    for i, (r, c) in enumerate(case["refs"]):
+        L += ["      %s" % c, "      put %d into r%d of %s" % (i + 1, i, r)]
+    return "\n".join(L) + "\n"
+
+
+def reared_model(case, naming):
+    T, S, X, M, MF = (naming[k] for k in ("T", "S", "X", "M", "MF"))
+    clone = "%s_%s1" % (T, M)
+    out = {}
+    for i, (r, c) in enumerate(case["refs"]):
+        out["r%d" % i] = {"frame main": "framer.%s.frame.%s" % (T, X), "framer main": "framer.%s" % T,
+                          "frame me": "framer.%s.frame.%s" % (clone, MF), "framer me": "framer.%s" % clone,
+                          "framer": "framer.%s" % clone}[r] + ".r%d" % i
+    return out
+
+
+def reared_observe(R, text):
+    from vf.flo import runner
+    res = runner.run_text(text, maxticks=10, proxies=False)
+    if not res.built:
+        return "nobuild", (res.build_msgs[-2:], repr(res.build_error))
+    if res.exc is not None:
+        return "raised", repr(res.exc)
+    shares, nodes = R.store_names(res.skedder.houses[0].store)
+    got = {}
+    for path, sh in shares.items():
+        leaf = path.split(".")[-1]
+        if len(leaf) == 2 and leaf[0] == "r" and leaf[1].isdigit():
+            got.setdefault(leaf, []).append((path, sh.value))
+    return "ok", got
+
+
+def reared_check(ctx, R, rng):
+    case = reared_case(rng)
+    base = case["naming"]
+    variants = [("base", None, base)]
+    for key in ("T", "S", "X", "M", "MF"):
+        nm = dict(base)
+        nm[key] = "zq%s%d" % (key.lower(), rng.randint(10, 99))
+        variants.append(("rename", key, nm))
+    for kind, key, nm in variants:
+        text = reared_text(case, nm)
+        st, got = reared_observe(R, text)
+        if st == "nobuild":
+            ctx.inconclusive_case("reared-clone program did not build: %s" % (got,))
+            return
+        if st == "raised":
+            ctx.fail("reared/run-raised", "run raised %s" % got, {"program": text})
+            return
+        model = reared_model(case, nm)
+        ctx.event(len(model))
+        ctx.hit("reared_clone_references_checked", len(model))
+        if key:
+            ctx.hit("reared_renamings_" + key)
+        for leaf, want in sorted(model.items()):
+            paths = got.get(leaf, [])
+            written = [p for p, v in paths if v is not None]
+            ref = dict(("r%d" % i, r) for i, (r, c) in enumerate(case["refs"]))[leaf]
+            if not ctx.check([p for p, v in paths] == [want] and written == [want],
+                             "reared/%s-resolves-elsewhere" % ref.replace(" ", "-"),
+                             "clone of %s reared by frame %s into frame %s of %s: `%s of %s` resolved to %s, expected %s%s" % (
+                                 nm["M"], nm["S"], nm["X"], nm["T"], leaf, ref, [p for p, v in paths], want,
+                                 (" (after renaming %s)" % key) if key else ""),
+                             lambda: {"program": text, "renamed": key, "reference": ref, "observed": paths, "expected": want}):
+                ctx.case(text, nontrivial=True)
+                return
+    ctx.case(reared_text(case, base), nontrivial=True)
+
+
 def run(ctx):
     n = ctx.pick(96, 4000)
     seeds = [ctx.rng.randrange(1 << 30) for _ in range(n)]
     k = 16
-    ctx.shard([{"seeds": seeds[i::k]} for i in range(k)], timeout=ctx.pick(120, 1500))
+    reared = [ctx.rng.randrange(1 << 30) for _ in range(ctx.pick(64, 2000))]
+    ctx.shard([{"seeds": seeds[i::k], "reared": reared[i::k]} for i in range(k)], timeout=ctx.pick(120, 1500))
+    ctx.floor("reared_clone_references_checked", ctx.pick(600, 20000))
+    ctx.floor("reared_renamings_S", 30)
     for name, v in MEASURED48.items():
         ctx.floor(name, max(1, int(v / (3.0 if v >= 100 else 5.0) * n / 48.0)))
     ctx.floor("oracle_evaluations", int(73000 / 3.0 * n / 48.0))
